@@ -10,7 +10,14 @@
   * `plain_authorised`, `multisig_authorised`, `payer_authorised`, `effect_implies_authorised`
       — the property on the CURRENT code (weights summed over DISTINCT signers, fix 5353fbf).
   * `legacy_multisig_refuted` — the code before the fix accepted one 50-weight signer twice.
-  * `setSigners_wf` — what ModifySignersTx stores is duplicate free, weights in 1..100, total ≥ 100.
+  * `setSigners_wf`, `setSigners_only_owner` — what ModifySignersTx stores is duplicate free, weights in 1..100,
+      total ≥ 100; target = sender, or a temp address derived from the sender that had no signers (`verifyTempAddress`
+      is the fact `tempOk` of the op line); the signers of an account that has some are changed by that account only.
+  * `box_subs_authorised` — a successful box ⇒ every sub-tx passed verifySigs in its own pre-state (induction).
+  * `plain_surplus_signature_accepted` — REFUTES "repeating a signature makes the tx ineffective" for plain accounts
+      (only the first recovered signer is looked at); the consequence is C04's finding c04/replayed/surplus-signature.
+  * Not covered by the theorems: EVM and asset tx kinds (`.other` in the model: the same `verifySigs` gate in the code,
+      exercised by the two-node scenario only).
 -/
 import LemoModel.Ledger
 import LemoModel.HashFacts
@@ -122,9 +129,13 @@ theorem sub_effect_implies_authorised (c : Ctx) (s s' : St) (gp gp' : Nat) (tx :
   | some e => simp [hv] at h
 
 /-- **setSigners_wf**: a successful ModifySignersTx stores a list with distinct addresses, weights in
-    1..100 and total weight ≥ 100, on the sender's own account. -/
-theorem setSigners_wf (s s' : St) (fr tg : Nat) (l : List (Nat × Nat)) (h : doSetSigners s fr tg l = .ok s') :
-    (s'.accts tg).signers = l ∧ fr = tg ∧ (distinct (l.map (·.1))).length = l.length ∧
+    1..100 and total weight ≥ 100 — on the sender's own account, or (from ≠ to) on a temp address that
+    `verifyTempAddress` derives from the sender (fact `tok`) and that had NO signers before: once set, the signers of
+    a temp account can only be changed by the temp account itself (i.e. by those signers). -/
+theorem setSigners_wf (s s' : St) (fr tg : Nat) (l : List (Nat × Nat)) (tok : Bool)
+    (h : doSetSigners s fr tg l tok = .ok s') :
+    (s'.accts tg).signers = l ∧ (fr = tg ∨ (tok = true ∧ (s.accts tg).signers = [])) ∧
+    (distinct (l.map (·.1))).length = l.length ∧
     (∀ x ∈ l, 1 ≤ x.2 ∧ x.2 ≤ 100) ∧ 100 ≤ sumNat (l.map (·.2)) ∧ l.length ≤ 100 := by
   unfold doSetSigners at h
   split at h; · cases h
@@ -132,16 +143,105 @@ theorem setSigners_wf (s s' : St) (fr tg : Nat) (l : List (Nat × Nat)) (h : doS
   split at h; · cases h
   split at h; · cases h
   split at h; · cases h
-  rename_i h1 h2 h3 h4 h5
+  split at h; · cases h
+  rename_i h1 h2 h3 h4 h5 h6
   injection h with h; subst h
   have h3' : (distinct (l.map (·.1))).length = l.length := Decidable.of_not_not h3
-  have h4' : fr = tg := Decidable.of_not_not h4
-  refine ⟨by simp [modAcct, upd], h4', h3', ?_, by omega, by omega⟩
+  have h45 : fr = tg ∨ (tok = true ∧ (s.accts tg).signers = []) := by
+    by_cases e : fr = tg
+    · exact Or.inl e
+    · refine Or.inr ⟨?_, ?_⟩
+      · cases tok with
+        | true => rfl
+        | false => exact absurd ⟨e, rfl⟩ h4
+      · exact Decidable.of_not_not (fun hh => h5 ⟨e, hh⟩)
+  refine ⟨by simp [modAcct, upd], h45, h3', ?_, by omega, by omega⟩
   intro x hx
   have := fun hh => h2 (List.any_eq_true.mpr ⟨x, hx, hh⟩)
   simp only [decide_eq_true_eq] at this
   have h' : ¬ (x.2 < 1 ∨ x.2 > 100) := this
   omega
+
+/-- nobody else can touch an account's signers: a successful ModifySignersTx changes the signers of `tg` only, and
+    for an account that already HAS signers only a tx sent by that account itself does -/
+theorem setSigners_only_owner (s s' : St) (fr tg : Nat) (l : List (Nat × Nat)) (tok : Bool)
+    (h : doSetSigners s fr tg l tok = .ok s') (x : Nat) (hx : (s.accts x).signers ≠ []) (hne : fr ≠ x) :
+    (s'.accts x).signers = (s.accts x).signers := by
+  obtain ⟨_, h2, _⟩ := setSigners_wf s s' fr tg l tok h
+  unfold doSetSigners at h
+  split at h; · cases h
+  split at h; · cases h
+  split at h; · cases h
+  split at h; · cases h
+  split at h; · cases h
+  split at h; · cases h
+  injection h with h; subst h
+  by_cases e : x = tg
+  · subst e
+    rcases h2 with h2 | ⟨_, h2⟩
+    · exact absurd h2 hne
+    · exact absurd h2 hx
+  · simp [modAcct, upd, e]
+
+/-! ### surplus signatures on a plain account (cross-reference: C04, finding c04/replayed/surplus-signature) -/
+
+/-- **plain_surplus_signature_accepted** — "repeating a signature makes the tx ineffective" is FALSE for plain accounts:
+    `checkSignersWeight` looks at the FIRST recovered signer only when the account has no signer list, so the owner's
+    signature followed by any surplus (its own again, or a stranger's) passes. The surplus is not authorisation-relevant
+    (the owner DID sign) but it changes the tx hash: the replay consequence is C04's finding. -/
+theorem plain_surplus_signature_accepted :
+    checkSigners true {} 5 (some [5, 5]) = none ∧ checkSigners true {} 5 (some [5, 9]) = none ∧
+    checkSigners true {} 5 (some [9, 5]) = some .signerMismatch := by
+  decide
+
+/-! ### boxes: every sub-transaction is checked in its own pre-state -/
+
+/-- every sub-tx of the list passes `verifySigs` in the state the PREVIOUS sub-txs left behind -/
+def SubsAuthorised (c : Ctx) : St → Nat → List Tx → Prop
+  | _, _, [] => True
+  | s, gp, t :: ts =>
+    verifySigs c.dedup s t = none ∧
+    (match applySimple c s gp t with
+     | .ok (s1, gp1, _) => SubsAuthorised c s1 gp1 ts
+     | .error _ => True)
+
+theorem applySubs_authorised (c : Ctx) : ∀ (ts : List Tx) (s : St) (gp : Nat) (r : St × Nat × Nat × Int),
+    applySubs c s gp ts = .ok r → SubsAuthorised c s gp ts := by
+  intro ts
+  induction ts with
+  | nil => intro s gp r _; trivial
+  | cons t ts ih =>
+    intro s gp r h
+    simp only [applySubs] at h
+    cases h1 : applySimple c s gp t with
+    | error e => simp [h1] at h
+    | ok r1 =>
+      obtain ⟨s1, gp1, g1⟩ := r1
+      simp only [h1] at h
+      refine ⟨sub_effect_implies_authorised c s s1 gp gp1 t g1 h1, ?_⟩
+      simp only [h1]
+      cases h2 : applySubs c s1 gp1 ts with
+      | error e => simp [h2] at h
+      | ok r2 => exact ih s1 gp1 r2 h2
+
+/-- **box_subs_authorised**: a box tx changes the state only if the box itself passed `verifySigs` AND every one of its
+    sub-transactions passed `verifySigs` in its own pre-state (the state after the box's gas purchase and the sub-txs
+    before it) — induction over `RunBoxTxs`. -/
+theorem box_subs_authorised (c : Ctx) (s s' : St) (gp gp' g : Nat) (tx : Tx) (hk : tx.kind = .box)
+    (h : applyTx c s gp tx = .ok (s', gp', g)) :
+    verifySigs c.dedup s tx = none ∧
+    SubsAuthorised c (setBal s tx.payer ((s.accts tx.payer).bal - (tx.gasLimit : Int) * tx.gasPrice)) (gp - tx.gasLimit) tx.subs := by
+  refine ⟨effect_implies_authorised c s s' gp gp' tx g h, ?_⟩
+  unfold applyTx at h
+  simp only [hk] at h
+  split at h; · cases h
+  split at h; · cases h
+  split at h; · cases h
+  split at h; · cases h
+  split at h; · cases h
+  split at h; · cases h
+  rename_i r hsub
+  exact applySubs_authorised c tx.subs _ _ _ hsub
 
 /-! ### what the signatures cover (over the regenerated / checked table `LemoModel.HashFacts.expected`) -/
 
